@@ -7,7 +7,7 @@ import dbcommon as D
 class C13(Prop):
     id = "C13"
     translators = []
-    proof_targets = ["Outstation/EventBufferProofs.vo", "Outstation/SessionC13Proofs.vo"]
+    proof_targets = ["Outstation/EventBufferProofs.vo", "Outstation/SessionC13Proofs.vo", "Outstation/FullProofs.vo"]
     property_file = "Properties/C13.v"
     theorems = []
     own_clauses = ("C13", "ALL")
